@@ -8,6 +8,7 @@ configuration.
 """
 
 import hashlib
+import os
 import numpy as np
 from pathlib import Path
 
@@ -66,10 +67,17 @@ class GreensFunctionCache:
         )
         path = self.cache_dir / f"{key}.npz"
         if path.exists():
+            try:
+                with np.load(path) as data:
+                    grid = (data["X"], data["Y"], data["Z"])
+                    result = grid, data["conc"], data["flx"]
+            except Exception as exc:
+                # an entry left truncated or corrupt by an interrupted run
+                # is a miss, not a fatal error
+                logger.warning("Ignoring unreadable cache entry %s: %s", key[:12], exc)
+                return None
             logger.debug("Cache hit: %s", key[:12])
-            data = np.load(path)
-            grid = (data["X"], data["Y"], data["Z"])
-            return grid, data["conc"], data["flx"]
+            return result
         logger.debug("Cache miss: %s", key[:12])
         return None
 
@@ -93,7 +101,15 @@ class GreensFunctionCache:
         )
         path = self.cache_dir / f"{key}.npz"
         X, Y, Z = grid
-        np.savez(path, X=X, Y=Y, Z=Z, conc=conc, flx=flx)
+        # write to a temporary name and rename, so that an interrupted run
+        # never leaves a partial file under the entry's name
+        tmp = self.cache_dir / f"{key}.{os.getpid()}.tmp.npz"
+        try:
+            np.savez(tmp, X=X, Y=Y, Z=Z, conc=conc, flx=flx)
+            os.replace(tmp, path)
+        finally:
+            if tmp.exists():
+                tmp.unlink()
         logger.debug("Cached: %s", key[:12])
 
     def clear(self):
